@@ -30,7 +30,7 @@ RULE = (
     "Non-trivial = at least one pre-emptive context switch landed; distinct = distinct sequence of (task, code location) at context switches."
 )
 ASSUMPTIONS = ["races inside a single Python line, inside http.client or inside C code are out of reach (one thread runs at a time, switches happen between lines)"]
-REQUIRED_PROBES = {"quick": ["preempted", "blocked_in_get", "close_raced", "closed_pool_error", "retry_concurrent", "redirect_concurrent", "partial_read_released", "all_completed", "pct_schedule", "systematic_single_preemption"], "thorough": ["preempted", "blocked_in_get", "close_raced", "closed_pool_error", "retry_concurrent", "redirect_concurrent", "partial_read_released", "all_completed", "pct_schedule"]}
+REQUIRED_PROBES = {"quick": ["preempted", "blocked_in_get", "close_raced", "closed_pool_error", "retry_concurrent", "redirect_concurrent", "partial_read_released", "final_failure_leaves_placeholder", "empty_answer_consumed", "all_completed", "pct_schedule", "systematic_single_preemption"], "thorough": ["preempted", "blocked_in_get", "close_raced", "closed_pool_error", "retry_concurrent", "redirect_concurrent", "partial_read_released", "final_failure_leaves_placeholder", "empty_answer_consumed", "all_completed", "pct_schedule"]}
 
 
 def warmup():
@@ -63,6 +63,8 @@ def gen_schedule(rng):
 def gen(rng):
     maxsize = rng.choice([1, 1, 2])
     cfg = {"maxsize": maxsize, "block": rng.random() < 0.65, "preload": rng.random() < 0.5, "pool_timeout": rng.choice([60, 60, None])}
+    if rng.random() < 0.25:
+        cfg["retries"] = 0  # a failing attempt is then final: the request ends in an error and leaves a placeholder in the queue
     ntasks = rng.choice([2, 2, 3])
     tasks = []
     for i in range(ntasks):
@@ -84,7 +86,11 @@ def gen(rng):
         sc["exchanges"] = [rng.choice([{"k": "rst"}, {"k": "eof"}, {"k": "resp", "status": 200, "keepalive": False},
                                        # a body-less redirect back to the same resource: the pool drains it, releases the connection and asks again
                                        {"k": "resp", "status": rng.choice([302, 307]), "headers": [["Location", "{target}"]], "body": ""},
-                                       {"k": "resp", "status": 303, "headers": [["Location", "{target}"]], "body": "see other"}])]
+                                       {"k": "resp", "status": 303, "headers": [["Location", "{target}"]], "body": "see other"},
+                                       # an empty answer: only reading it to its (immediate) end gives the connection back
+                                       {"k": "resp", "status": 200, "body": "", "autobody": False}, {"k": "resp", "status": 204}])]
+    if not cfg["preload"] and rng.random() < 0.35:
+        cfg["read_style"] = rng.choice(["stream_only", "iter_only", "read_only"])
     return sc
 
 
@@ -159,7 +165,11 @@ def run(sc: dict) -> Result:
     close_info = {"victims": [], "began": False}
     with H.RunEnv(), H.quiet_warnings(), w:
         sched = S.Scheduler(w, sc["schedule"])
-        pool = urllib3.HTTPConnectionPool("h.test", 80, maxsize=cfg["maxsize"], block=cfg["block"], timeout=7.0, retries=2)
+        pool = urllib3.HTTPConnectionPool("h.test", 80, maxsize=cfg["maxsize"], block=cfg["block"], timeout=7.0, retries=cfg.get("retries", 2))
+        # (with retries=0 a scripted redirect is final too: "too many redirects")
+        injected_failures = sum(1 for ex in sc.get("exchanges") or [] if ex.get("k") in ("rst", "eof") or ex.get("status") in (302, 303, 307)) if cfg.get("retries", 2) == 0 else 0
+        tolerated = [0]
+        empties = [sum(1 for ex in sc.get("exchanges") or [] if ex.get("status") == 204 or (ex.get("status") == 200 and ex.get("body") == ""))]
         qid = id(pool.pool)
 
         def make(task):
@@ -183,8 +193,17 @@ def run(sc: dict) -> Result:
                             H.collect()  # the caller lets go of the response object
                             out.append(("part", op["path"], st, data))
                             continue
-                        data = r.data if cfg["preload"] else r.read()
-                        if not cfg["preload"]:
+                        style = cfg.get("read_style")
+                        if cfg["preload"]:
+                            data = r.data
+                        elif style == "stream_only":
+                            data = b"".join(r.stream(16))  # consumed to the end; that alone returns the connection
+                        elif style == "iter_only":
+                            data = b"".join(r)
+                        elif style == "read_only":
+                            data = r.read()
+                        else:
+                            data = r.read()
                             r.release_conn()
                         out.append(("ok", op["path"], r.status, data))
                     except (S.SimDeadlock, S.TaskAbort, W.StepLimit, W.SimHang) as e:
@@ -230,12 +249,18 @@ def run(sc: dict) -> Result:
                         res.bad("wrong_response", f"{name} asked {path} and the first bytes were {data[:40]!r} (status {status})")
                 elif item[0] == "ok":
                     _, path, status, data = item
-                    if (f"[GET {path} #").encode() not in data or status != 200:
+                    if data == b"" and status in (200, 204) and empties[0] > 0:
+                        empties[0] -= 1  # the scripted empty answer
+                        res.probes["empty_answer_consumed"] += 1
+                    elif (f"[GET {path} #").encode() not in data or status != 200:
                         res.bad("wrong_response", f"{name} asked {path} and received status {status} body {data[:60]!r}")
                 elif item[0] == "exc":
                     e = item[2]
                     if has_close and isinstance(e, ClosedPoolError):
                         res.probes["closed_pool_error"] += 1
+                    elif injected_failures and tolerated[0] < injected_failures and H.is_urllib3_error(e) and not isinstance(e, (EmptyPoolError, ClosedPoolError)):
+                        tolerated[0] += 1  # the scripted connection loss with no retry left
+                        res.probes["final_failure_leaves_placeholder"] += 1
                     elif has_close and isinstance(e, EmptyPoolError):
                         res.bad("empty_pool_error_after_close", f"{name} {item[1]}: {e!r:.120} ")
                     elif isinstance(e, EmptyPoolError):
@@ -355,6 +380,14 @@ def shrinks(sc):
         for t in c["tasks"]:
             for o in t["ops"]:
                 o.pop("partial", None)
+        yield c
+    if sc["config"].get("retries") == 0:
+        c = copy.deepcopy(sc)
+        del c["config"]["retries"]
+        yield c
+    if sc["config"].get("read_style"):
+        c = copy.deepcopy(sc)
+        del c["config"]["read_style"]
         yield c
     for fld, simple in (("maxsize", 1), ("preload", True)):
         if sc["config"][fld] != simple:
